@@ -151,3 +151,274 @@ def random_exit(seed, tier):
                 walks.append(random_key_walk(rng, cfg, length, notes + others, ["KEY_F2"], p_action=0.1, exit_free=False))
             batches.append({"cfg": cfg, "cfgmode": "literal", "sub": "", "walks": walks})
     return batches
+
+
+# ---------------------------------------------------------------------------------------------
+# analog axes
+
+from fractions import Fraction
+
+
+def axis(type="cc", **kw):
+    a = {"type": type, "cc": 0, "ccNeg": 0, "note": 0, "noteNeg": 0, "off": 0, "offNeg": 0, "act": "", "actNeg": "",
+         "bidi": False, "flip": False, "centre": False, "dzn": 0, "dzd": 1, "dzsrc": "specific"}
+    a.update(kw)
+    return a
+
+
+def base_cfg(mode="interrupt", **kw):
+    c = {"mode": mode, "exit": [], "vel": 64, "dOct": 0, "dSemi": 0, "dChan": 0, "dMap": 1,
+         "actions": {}, "maps": [], "axinfo": {}}
+    c.update(kw)
+    return c
+
+
+def work_pos(info, ad, raw):
+    """Exact position the type-specific code works with (see DeviceSys!WorkPos)."""
+    v = Fraction(raw, abs(info["min"])) if raw < 0 else Fraction(raw, abs(info["max"]))
+    if ad["centre"]:
+        v = 2 * v - 1
+    dz = Fraction(ad["dzn"], ad["dzd"])
+    if abs(v) <= dz:
+        s = Fraction(0)
+    else:
+        s = (abs(v) - dz) / (1 - dz) * (1 if v > 0 else -1)
+    can_neg = info["min"] < 0 or ad["centre"]
+    if ad["flip"]:
+        s = -s if can_neg else 1 - s
+    return s if can_neg else 2 * s - 1
+
+
+def on_float_boundary(info, ad, raw):
+    """Positions whose exact shaped value sits on a threshold the code compares a rounded float with
+    (only possible to hit exactly; with a dead-zone the float may land on either side)."""
+    if ad["dzn"] == 0 and not ad["centre"] and not (ad["flip"] and info["min"] >= 0) and info["min"] < 0:
+        return False
+    w = work_pos(info, ad, raw)
+    return abs(w) in (Fraction(1, 2), Fraction(49, 100))
+
+
+DZS_QUICK = [(0, 1), (1, 20), (1, 10)]
+DZS_FULL = [(0, 1), (1, 20), (1, 10), (1, 4), (1, 2), (3, 50), (13, 100)]
+
+
+def c06_batches(seed, tier):
+    """Option lattice x complete sweeps of 8-bit axes (up, down, seeded random order), hats, and
+    edge / dead-zone-edge / centre / sampled values of 16-bit axes.  One axis per configuration."""
+    rng = random.Random(seed * 31 + 5)
+    dzs = DZS_QUICK if tier == "quick" else DZS_FULL
+    batches = []
+    ranges = [("s8", -128, 127), ("u8", 0, 255)]
+    if tier == "thorough":
+        ranges += [("s8sym", -127, 127), ("hat", -1, 1), ("u4", 0, 15)]
+    big = [("s16", -32768, 32767), ("u16", 0, 65535)]
+    srcs = ["specific", "handler", "global"]
+    n = 0
+    for rname, mn, mx in ranges + big:
+        for dzn, dzd in dzs:
+            for flip in (False, True):
+                for centre in ((False, True) if mn == 0 else (False,)):
+                    for kind in ("cc", "bidi", "pitch"):
+                        n += 1
+                        src = srcs[n % 3] if tier == "quick" else None
+                        for dzsrc in ([src] if src else srcs):
+                            ad = axis("pitch_bend" if kind == "pitch" else "cc", cc=20, ccNeg=21, off=n % 16, offNeg=(n + 5) % 16,
+                                      bidi=(kind == "bidi"), flip=flip, centre=centre, dzn=dzn, dzd=dzd, dzsrc=dzsrc)
+                            cfg = base_cfg(dChan=n % 16, maps=[{"name": "M1", "keys": {}, "axes": {"ABS_X": ad}}],
+                                           axinfo={"ABS_X": {"min": mn, "max": mx}})
+                            if mx - mn <= 255:
+                                vals = list(range(mn, mx + 1))
+                            else:
+                                # edges, dead-zone edges, centre, sampled
+                                pts = {mn, mn + 1, mx, mx - 1, 0, 1, -1 if mn < 0 else 2, (mn + mx) // 2, (mn + mx) // 2 + 1,
+                                       (mn + mx) // 2 - 1}
+                                for base in (0, (mn + mx) // 2):
+                                    for sgn in (1, -1):
+                                        e = base + sgn * (mx - base) * dzn // dzd
+                                        pts |= {e - 2, e - 1, e, e + 1, e + 2}
+                                pts = {p for p in pts if mn <= p <= mx}
+                                k = 300 if tier == "quick" else 2000
+                                vals = sorted(pts | {rng.randint(mn, mx) for _ in range(k)})
+                            up = [{"ev": "axis", "a": "ABS_X", "raw": v} for v in vals]
+                            down = list(reversed(up))
+                            rnd = up[:]
+                            rng.shuffle(rnd)
+                            sub = "pad" if dzsrc == "global" else ""
+                            batches.append({"cfg": cfg, "cfgmode": "literal", "sub": sub, "walks": [up, down, rnd]})
+    return batches
+
+
+def c07_batches(seed, tier):
+    """Random position sequences (direct jumps between sides, exact centre) on two bidirectional
+    axes with distinct controllers and channel offsets, cc-learning pressed and released anywhere."""
+    rng = random.Random(seed * 131 + 9)
+    batches = []
+    n_walks, length = (12, 200) if tier == "quick" else (80, 600)
+    for dzn, dzd in (DZS_QUICK if tier == "quick" else DZS_FULL[:5]):
+        for variant in ("signed", "centred", "mixed"):
+            for flip in (False, True):
+                ax = {}
+                info = {}
+                if variant in ("signed", "mixed"):
+                    ax["ABS_X"] = axis("cc", cc=1, ccNeg=2, off=0, offNeg=3, bidi=True, flip=flip, dzn=dzn, dzd=dzd)
+                    info["ABS_X"] = {"min": -128, "max": 127}
+                if variant in ("centred", "mixed"):
+                    ax["ABS_Y"] = axis("cc", cc=3, ccNeg=4, off=2, offNeg=2, bidi=True, centre=True, flip=not flip, dzn=dzn, dzd=dzd)
+                    info["ABS_Y"] = {"min": 0, "max": 255}
+                if variant == "signed":
+                    ax["ABS_RX"] = axis("cc", cc=5, ccNeg=6, off=1, offNeg=1, bidi=True, dzn=dzn, dzd=dzd, dzsrc="handler")
+                    info["ABS_RX"] = {"min": -32768, "max": 32767}
+                cfg = base_cfg(dChan=rng.randrange(16), actions={"KEY_F9": "cc_learning"},
+                               maps=[{"name": "M1", "keys": {}, "axes": ax}], axinfo=info)
+                walks = []
+                for _ in range(n_walks):
+                    w = []
+                    learning = False
+                    for _ in range(length):
+                        if rng.random() < 0.08:
+                            w.append({"ev": "release" if learning else "press", "k": "KEY_F9"})
+                            learning = not learning
+                            continue
+                        a = rng.choice(sorted(ax))
+                        mn, mx = info[a]["min"], info[a]["max"]
+                        mid = (mn + mx) // 2 if mn == 0 else 0
+                        r = rng.random()
+                        if r < 0.25:
+                            raw = rng.choice([mn, mx, mid, mid + 1, mid - 1 if mid - 1 >= mn else mid])
+                        elif r < 0.5:
+                            raw = rng.randint(mn, mx)
+                        else:  # near the half-travel gate and the dead-zone edge
+                            half = (mx - mid) // 2
+                            raw = mid + rng.choice([1, -1]) * rng.choice([half, half + 1, half - 1, (mx - mid) * dzn // dzd + rng.randint(-1, 2),
+                                                                          rng.randint(0, mx - mid)])
+                            raw = max(mn, min(mx, raw))
+                        if on_float_boundary(info[a], ax[a], raw):
+                            continue
+                        w.append({"ev": "axis", "a": a, "raw": raw})
+                    if learning:
+                        w.append({"ev": "release", "k": "KEY_F9"})
+                    walks.append(w)
+                batches.append({"cfg": cfg, "cfgmode": "literal", "sub": "", "walks": walks})
+    return batches
+
+
+def c08_batches(seed, tier, cfgmode="literal"):
+    """Hat and stick axes emulating keys: signed / unsigned / flipped, with and without a negative note,
+    distinct notes and channel offsets, random positions with direct jumps, interleaved with
+    octave / semitone / channel actions."""
+    rng = random.Random(seed * 733 + 1)
+    batches = []
+    n_walks, length = (10, 150) if tier == "quick" else (60, 500)
+    acts = {"KEY_F1": "octave_down", "KEY_F2": "octave_up", "KEY_F3": "semitone_down", "KEY_F4": "semitone_up",
+            "KEY_F5": "channel_down", "KEY_F6": "channel_up"}
+    for dzn, dzd in [(0, 1), (1, 10)] if tier == "quick" else [(0, 1), (1, 10), (1, 4), (1, 20)]:
+        for flip in (False, True):
+            ax = {
+                "ABS_HAT0X": axis("key", note=60, noteNeg=62, off=0, offNeg=3, bidi=True, flip=flip, dzn=0, dzd=1),
+                "ABS_X": axis("key", note=48, noteNeg=50, off=1, offNeg=0, bidi=True, flip=flip, dzn=dzn, dzd=dzd),
+                "ABS_Z": axis("key", note=72, noteNeg=71, off=0, offNeg=0, bidi=True, flip=not flip, dzn=dzn, dzd=dzd),
+                "ABS_RX": axis("key", note=100, off=15, bidi=False, flip=flip, dzn=dzn, dzd=dzd),
+                "ABS_RZ": axis("key", note=5, noteNeg=122, off=0, offNeg=0, bidi=True, dzn=0, dzd=1),
+            }
+            info = {"ABS_HAT0X": {"min": -1, "max": 1}, "ABS_X": {"min": -128, "max": 127}, "ABS_Z": {"min": 0, "max": 255},
+                    "ABS_RX": {"min": -32768, "max": 32767}, "ABS_RZ": {"min": -100, "max": 100}}
+            cfg = base_cfg(dChan=rng.randrange(16), actions=acts, maps=[{"name": "M1", "keys": {}, "axes": ax}], axinfo=info)
+            walks = []
+            for _ in range(n_walks):
+                w = []
+                axes = rng.sample(sorted(ax), rng.choice([1, 2, 5]))
+                for _ in range(length):
+                    if rng.random() < 0.15:
+                        k = rng.choice(sorted(acts))
+                        w += [{"ev": "press", "k": k}, {"ev": "release", "k": k}]
+                        continue
+                    a = rng.choice(axes)
+                    mn, mx = info[a]["min"], info[a]["max"]
+                    mid = (mn + mx) // 2 if mn == 0 else 0
+                    span = mx - mid
+                    r = rng.random()
+                    if r < 0.3:
+                        raw = rng.choice([mn, mx, mid])
+                    elif r < 0.6:
+                        raw = rng.randint(mn, mx)
+                    else:  # around the on (50 %) and off (49 %) thresholds
+                        t = rng.choice([span // 2, span * 49 // 100, span * dzn // dzd + span // 2])
+                        raw = max(mn, min(mx, mid + rng.choice([1, -1]) * (t + rng.randint(-2, 2))))
+                    if on_float_boundary(info[a], ax[a], raw):
+                        continue
+                    w.append({"ev": "axis", "a": a, "raw": raw})
+                for a in axes:  # back to rest: C01 for axes
+                    mn, mx = info[a]["min"], info[a]["max"]
+                    w.append({"ev": "axis", "a": a, "raw": (mn + mx) // 2 + (1 if mn == 0 else 0) if mn == 0 else 0})
+                if rng.random() < 0.5:
+                    w.append({"ev": "disconnect"})
+                walks.append(w)
+            batches.append({"cfg": cfg, "cfgmode": cfgmode, "sub": "", "walks": walks})
+    return batches
+
+
+def c05_batches(seed, tier):
+    """Boundary configurations as the parser may let them through: default channel, velocity, key and
+    axis channel offsets, controller numbers at and beyond their ranges.  The harness skips the ones
+    ParseData rejects; each accepted one runs a fixed script: every key, panic on the first channel and
+    after 16 channel-ups, every axis over its end stops, centre, dead-zone edge and a sweep."""
+    rng = random.Random(seed * 977 + 3)
+    batches = []
+    chans = [1, 16, 0, 17, -1, 255, 256, 257]
+    vels = [64, 0, 1, 127, 128]
+    koffs = [0, 15]
+    aoffs = [0, 15, 16, 255, 256]
+    ccs = [0, 119, 120, 127]
+    combos = []
+    for ch in chans:
+        combos.append((ch, 64, 15, 15, 119))
+    for v in vels:
+        combos.append((1, v, 0, 0, 0))
+    for ao in aoffs:
+        for cc in ccs:
+            combos.append((16, 127, 15, ao, cc))
+    if tier == "thorough":
+        for _ in range(60):
+            combos.append((rng.choice(chans), rng.choice(vels), rng.choice(koffs), rng.choice(aoffs), rng.choice(ccs)))
+    for ch, vel, ko, ao, cc in combos:
+        ax = {
+            "ABS_X": axis("cc", cc=cc, ccNeg=cc + 1 if cc < 119 else cc - 1, off=ao, offNeg=ao, bidi=True, dzn=1, dzd=20),
+            "ABS_Y": axis("pitch_bend", off=ao, flip=True, dzn=1, dzd=10),
+            "ABS_Z": axis("cc", cc=cc, off=ao, centre=True, dzn=1, dzd=2),
+            "ABS_RX": axis("key", note=127, noteNeg=0, off=ao, offNeg=ao, bidi=True, dzn=0, dzd=1),
+            "ABS_RZ": axis("cc", cc=cc, off=ao, flip=True, dzn=99, dzd=100),
+        }
+        info = {"ABS_X": {"min": -128, "max": 127}, "ABS_Y": {"min": -32768, "max": 32767}, "ABS_Z": {"min": 0, "max": 255},
+                "ABS_RX": {"min": -1, "max": 1}, "ABS_RZ": {"min": 0, "max": 1023}}
+        cfg = base_cfg(mode="interrupt", vel=vel, dChan=ch - 1,
+                       actions={"KEY_ESC": "panic", "KEY_F6": "channel_up", "KEY_F5": "channel_down", "KEY_F2": "octave_up"},
+                       maps=[{"name": "M1", "keys": {"KEY_A": {"n": 0, "o": ko}, "KEY_S": {"n": 127, "o": ko}, "KEY_D": {"n": 60, "o": 0}},
+                              "axes": ax}], axinfo=info)
+        w = []
+        def tap(k):
+            w.extend([{"ev": "press", "k": k}, {"ev": "release", "k": k}])
+        def sweep():
+            for a in sorted(ax):
+                mn, mx = info[a]["min"], info[a]["max"]
+                pts = [mn, mx, 0 if mn < 0 else (mn + mx) // 2, (mn + mx) // 2 + 1, mn + (mx - mn) // 20, mx - (mx - mn) // 20,
+                       mn + 1, mx - 1] + [mn + (mx - mn) * i // 23 for i in range(24)]
+                for p in pts:
+                    if not on_float_boundary(info[a], ax[a], p):
+                        w.append({"ev": "axis", "a": a, "raw": p})
+        for k in ("KEY_A", "KEY_S", "KEY_D"):
+            tap(k)
+        tap("KEY_ESC")
+        sweep()
+        for _ in range(16):
+            tap("KEY_F6")
+        for k in ("KEY_A", "KEY_S", "KEY_D"):
+            tap(k)
+        tap("KEY_ESC")
+        sweep()
+        for _ in range(17):
+            tap("KEY_F5")
+        tap("KEY_A")
+        tap("KEY_ESC")
+        w.append({"ev": "disconnect"})
+        batches.append({"cfg": cfg, "cfgmode": "toml", "sub": "", "optional": True, "walks": [w]})
+    return batches
